@@ -6,6 +6,8 @@ CONSTANTS
   OutOf <- OutSingle
   SingleFile = TRUE
   GenKinds = {"ok"}
+  Visits <- VisitsOnce
+  Dedupe = "none"
   Items <- ItemsNoConst
 SPECIFICATION Spec
 INVARIANTS TypeOk Deterministic
